@@ -154,6 +154,14 @@ impl Prop for P {
                 }
             }
         }
+        // the same queries on files STREAMED to short-writing / interrupting / block-cutting writers
+        if x == "ok" && ops.len() <= 300 {
+            let qs2 = qs.clone();
+            let answer = move |g: &Fst<Vec<u8>>| -> String { qs2.iter().map(|&q| g.get_key(q).map(|k| hex(&k)).unwrap_or("~".into())).collect::<Vec<_>>().join(",") };
+            if let Err(e) = crate::wrap::streamed_files_answer(0, &ops, f.as_bytes(), &res.join(","), &answer) {
+                x = e;
+            }
+        }
         let s = res.join(",");
         format!("S:{}\tM:{}\tX:{}", s, s, x)
     }
